@@ -1194,6 +1194,26 @@ fn token_soup(r: &mut Rng) -> String {
     s
 }
 
+/// the same few owners / types / data again and again with varying TTL, class and letter case:
+/// exercises the replace / ignore / refuse rules of `RecordSet::insert` (no expectation)
+fn rrset_edits(r: &mut Rng) -> String {
+    let owners = ["a", "A", "b", "@", ""];
+    let datas = [
+        ("A", "1.1.1.1"), ("A", "2.2.2.2"), ("a", "1.1.1.1"), ("CNAME", "x"), ("CNAME", "X"), ("cname", "y"), ("ANAME", "x"),
+        ("NS", "n"), ("NS", "N"), ("TXT", "t"), ("TXT", "\"t\""), ("MX", "1 m"), ("MX", "1 M"), ("MX", "2 m"),
+        ("SOA", "a b 1 2 3 4 5"), ("SOA", "a b 2 2 3 4 5"),
+    ];
+    let mut s = String::new();
+    for _ in 0..r.range(2, 7) {
+        let (t, d) = *r.pick(&datas);
+        let o = *r.pick(&owners);
+        let ttl = *r.pick(&["60", "60", "70", ""]);
+        let cls = *r.pick(&["", "", "IN", "CH"]);
+        s.push_str(&format!("{o} {ttl} {cls} {t} {d}\n"));
+    }
+    s
+}
+
 fn case_line(flag: &str, origin: &GName, text: &str, exp: Option<(&GName, &[GRec])>) -> String {
     let mut l = format!("zone {flag} {} {}", origin.tok(), hex(text.as_bytes()));
     if let Some((o, recs)) = exp {
@@ -1225,7 +1245,7 @@ fn adversarial() -> Vec<String> {
 }
 
 pub fn run(o: &Opts, rec: &mut Recorder) {
-    rec.rule = "zone texts: (a) random record sets of A/AAAA/NS/CNAME/PTR/ANAME/MX/SOA/SRV/TXT/HINFO/CAA printed by an independent RFC 1035 §5 printer with per-line random layout, (b) mutations of those, (c) token soup and garbage; a case is non-trivial when the text loaded to >= 1 record or is a malformed-stream text of >= 10 characters; distinct by case line".into();
+    rec.rule = "zone texts: (a) random record sets of A/AAAA/NS/CNAME/PTR/ANAME/MX/SOA/SRV/TXT/HINFO/CAA printed by an independent RFC 1035 §5 printer with per-line random layout, (b) mutations of those, (c) token soup, repeated RRset edits and garbage; a case is non-trivial when the text loaded to >= 1 record or is a malformed-stream text of >= 10 characters; distinct by case line".into();
     for l in o.pre_lines.clone() {
         exec(&l, rec);
     }
@@ -1273,6 +1293,10 @@ pub fn run(o: &Opts, rec: &mut Recorder) {
             8 => {
                 rec.stat("stream.token-soup");
                 exec(&case_line("m", &origin, &token_soup(&mut r), None), rec);
+            }
+            _ if r.chance(1, 2) => {
+                rec.stat("stream.rrset-edits");
+                exec(&case_line("m", &origin, &rrset_edits(&mut r), None), rec);
             }
             _ => {
                 rec.stat("stream.garbage");
